@@ -63,13 +63,15 @@ const (
 	PoolRepeated    // B3, one signer repeated q times
 	PoolGenesisV7   // genesis hash, stated view 7
 	PoolNilSig      // B3 with a nil signature
+	PoolB3Relabel   // B3's signature bytes with the signer labels re-attributed (one label replaced by a non-signer, or rotated)
+	PoolB3Resplit   // B3's signature bytes split differently between the entries (ECDSA; otherwise like PoolB3Relabel)
 	PoolSize
 )
 
 // poolValid is the ground truth for the prepared QCs; PoolBlockView the view of the certified block.
 var (
-	poolValid     = [PoolSize]bool{true, true, true, true, false, false, false, false, false, false, false}
-	PoolBlockView = [PoolSize]uint64{0, 1, 2, 5, 5, 2, 2, 3, 5, 0, 5}
+	poolValid     = [PoolSize]bool{true, true, true, true, false, false, false, false, false, false, false, false, false}
+	PoolBlockView = [PoolSize]uint64{0, 1, 2, 5, 5, 2, 2, 3, 5, 0, 5, 5, 5}
 )
 
 // PoolValid reports the ground truth of pool QC i (a signer "repeated q times" is one honest signature when q == 1).
@@ -141,8 +143,67 @@ func GetWorld(scheme string, n int) *World {
 	w.Pool[PoolRepeated] = hotstuff.NewQuorumCert(w.buildSig(rep, func(e Entry) []byte { return w.Blocks[3].ToBytes() }), 5, w.Blocks[3].Hash())
 	w.Pool[PoolGenesisV7] = hotstuff.NewQuorumCert(nil, 7, g.Hash())
 	w.Pool[PoolNilSig] = hotstuff.NewQuorumCert(nil, 5, w.Blocks[3].Hash())
+	w.Pool[PoolB3Relabel] = hotstuff.NewQuorumCert(relabelSig(w, w.Pool[PoolB3].Signature(), false), 5, w.Blocks[3].Hash())
+	w.Pool[PoolB3Resplit] = hotstuff.NewQuorumCert(relabelSig(w, w.Pool[PoolB3].Signature(), true), 5, w.Blocks[3].Hash())
 	worlds[key] = w
 	return w
+}
+
+// relabelSig keeps the signature bytes of s and re-attributes the signers (rotating the labels; with a single signer the
+// label becomes another replica or an unknown id). With resplit, ECDSA signature bytes are additionally cut at another place.
+func relabelSig(w *World, s hotstuff.QuorumSignature, resplit bool) hotstuff.QuorumSignature {
+	other := func(id hotstuff.ID) hotstuff.ID { return id%hotstuff.ID(w.N+1) + 1 }
+	switch m := s.(type) {
+	case crypto.Multi[*crypto.ECDSASignature]:
+		out := make([]*crypto.ECDSASignature, len(m))
+		if resplit && len(m) >= 2 {
+			for i, p := range m {
+				out[i] = crypto.RestoreECDSASignature(p.ToBytes(), p.Signer())
+			}
+			a, b := m[0].ToBytes(), m[1].ToBytes()
+			out[0] = crypto.RestoreECDSASignature(a[:len(a)-1], m[0].Signer())
+			out[1] = crypto.RestoreECDSASignature(append([]byte{a[len(a)-1]}, b...), m[1].Signer())
+			return crypto.NewMulti(out...)
+		}
+		for i, p := range m {
+			out[i] = crypto.RestoreECDSASignature(p.ToBytes(), m[(i+1)%len(m)].Signer())
+		}
+		if len(m) == 1 {
+			out[0] = crypto.RestoreECDSASignature(m[0].ToBytes(), other(m[0].Signer()))
+		}
+		return crypto.NewMulti(out...)
+	case crypto.Multi[*crypto.EDDSASignature]:
+		out := make([]*crypto.EDDSASignature, len(m))
+		for i, p := range m {
+			out[i] = crypto.RestoreEDDSASignature(p.ToBytes(), m[(i+1)%len(m)].Signer())
+		}
+		if len(m) == 1 {
+			out[0] = crypto.RestoreEDDSASignature(m[0].ToBytes(), other(m[0].Signer()))
+		}
+		return crypto.NewMulti(out...)
+	case *crypto.BLS12AggregateSignature:
+		var bf crypto.Bitfield
+		first := true
+		m.Participants().ForEach(func(id hotstuff.ID) {
+			if first {
+				// replace the first signer by a replica that did not sign (or an unknown id)
+				first = false
+				cand := hotstuff.ID(1)
+				for m.Participants().Contains(cand) {
+					cand++
+				}
+				bf.Add(cand)
+				return
+			}
+			bf.Add(id)
+		})
+		r, err := crypto.RestoreBLS12AggregateSignature(m.ToBytes(), bf)
+		if err != nil {
+			panic(err)
+		}
+		return r
+	}
+	panic("unknown signature type")
 }
 
 func (w *World) honestQC(b *hotstuff.Block, k int) hotstuff.QuorumCert {
@@ -199,7 +260,7 @@ func (w *World) buildSig(entries []Entry, msgOf func(Entry) []byte) hotstuff.Quo
 				if err != nil {
 					panic(err)
 				}
-				raw = s.ToBytes()
+				raw = kit.RawSig(s)
 			}
 			sigs = append(sigs, crypto.RestoreECDSASignature(raw, hotstuff.ID(e.Claimed)))
 		}
@@ -213,7 +274,7 @@ func (w *World) buildSig(entries []Entry, msgOf func(Entry) []byte) hotstuff.Quo
 				if err != nil {
 					panic(err)
 				}
-				raw = s.ToBytes()
+				raw = kit.RawSig(s)
 			}
 			sigs = append(sigs, crypto.RestoreEDDSASignature(raw, hotstuff.ID(e.Claimed)))
 		}
@@ -276,8 +337,9 @@ func (w *World) timeoutBytes(id int, view uint64, qc int) []byte {
 
 // Build constructs the certificate and its ground truth.
 func (w *World) Build(s Spec) (b Built, err error) {
-	var msgOf func(Entry) []byte
-	var expOf func(claimed int) []byte // nil = nothing this signer could have signed makes the entry valid
+	var msgOf func(Entry) []byte     // the bytes an entry's signer really signed
+	var contentOf func(Entry) []byte // canonical description of what was signed (defaults to the bytes)
+	var expOf func(claimed int) []byte // canonical description of what the certificate claims this signer signed; nil = nothing makes the entry valid
 	b.CertLevelOK = true
 	switch s.Kind {
 	case "qc":
@@ -311,16 +373,25 @@ func (w *World) Build(s Spec) (b Built, err error) {
 		for _, me := range s.Map {
 			m[me.ID] = me.QC
 		}
+		// Validity is decided on CONTENT (which replica's message, which view, which certificate object), not on byte
+		// equality of encodings: two different certificates must not be interchangeable inside a signed timeout message.
+		canon := func(id int, view uint64, qc int) []byte {
+			return []byte(fmt.Sprintf("timeout|%d|%d|%d", id, view, ((qc%PoolSize)+PoolSize)%PoolSize))
+		}
 		msgOf = func(e Entry) []byte { return w.timeoutBytes(e.SID, e.View, e.SQC) }
+		contentOf = func(e Entry) []byte { return canon(e.SID, e.View, e.SQC) }
 		expOf = func(c int) []byte {
 			qc, ok := m[c]
 			if !ok {
 				return nil
 			}
-			return w.timeoutBytes(c, s.ClaimView, qc)
+			return canon(c, s.ClaimView, qc)
 		}
 	default:
 		return b, fmt.Errorf("bad kind")
+	}
+	if contentOf == nil {
+		contentOf = msgOf
 	}
 	// ground truth per entry
 	validSet := map[int]bool{}
@@ -338,7 +409,7 @@ func (w *World) Build(s Spec) (b Built, err error) {
 			cl = "garbage"
 		case e.Key != e.Claimed:
 			cl = "wrongkey"
-		case exp == nil || !bytes.Equal(exp, msgOf(e)):
+		case exp == nil || !bytes.Equal(exp, contentOf(e)):
 			cl = "foreignmsg"
 		}
 		if cl == "valid" {
@@ -366,7 +437,7 @@ func (w *World) Build(s Spec) (b Built, err error) {
 				continue
 			}
 			for _, e := range s.Entries {
-				if !e.Empty && e.Key == id && bytes.Equal(exp, msgOf(e)) {
+				if !e.Empty && e.Key == id && bytes.Equal(exp, contentOf(e)) {
 					validSet[id] = true
 				}
 			}
